@@ -13,6 +13,7 @@ empty string); a vector of items is one token `_item,item,…`.
   `bcast <root> t0 t1 …`            -> POD bcast (tokens opaque) or `error`
   `bcastser <root> _s0 _s1 …`       -> serialised bcast through the byte-level model or `error`
   `mpibcastser <root> _s0 …`        -> comm::mpi_bcast
+  `xfer _s`                         -> mpi_send of s followed by mpi_recv: what the receiver gets
   `issame t0 t1 …`                  -> is_same, one 0/1 per rank
   `typeof`                          -> `cty:DT:kind:bytes …`
   `prims <coll>`                    -> program of the collective, e.g. `barrier allreduce:SUM`
@@ -121,6 +122,10 @@ def handle (line : String) : String :=
     match root.toNat?, strs? vs with
     | some root, some xs => showOptStrs (mpiBcastSer charCodec '?' root xs)
     | _, _ => "bad-op"
+  | ["xfer", v] =>
+    match str? v with
+    | some s => (match xfer charCodec s with | some r => showStr r | none => "desfail")
+    | none => "bad-op"
   | "issame" :: vs => " ".intercalate ((isSame (· == ·) vs).map fun b => if b then "1" else "0")
   | ["typeof"] =>
     " ".intercalate (CTy.all.map fun t =>
